@@ -476,7 +476,12 @@ def standard_check(prop, tier, seed, mod):
     theorem_fail = None
     if not ok:
         m = re.search(r'File "\./([^"]+)", line (\d+)', log)
-        theorem_fail = (m.group(1) + ":" + m.group(2)) if m else "coq build"
+        if m:
+            theorem_fail = m.group(1) + ":" + m.group(2)
+        elif log.startswith("translator failed"):
+            theorem_fail = " ".join(log.split())[:400]  # the source no longer has the shape the model was written against
+        else:
+            theorem_fail = "coq build"
         errtxt = log[-1500:]
     elif gate:
         theorem_fail = "forbidden construct: " + "; ".join(gate[:5])
